@@ -130,6 +130,12 @@ def class_cases(tier):
                         if tier != "thorough" and (when == "after_compute_and_transform") != (r == "netcdf_attrs"):
                             continue
                         cases.append(dict(fam=f, ds=ds, rot=rot, route=r, when=when))
+    # data with an entirely missing coordinate line of features and an entirely missing sample: what the Sanitizer
+    # removed has to be put back by the rebuilt model exactly as by the serialised one (seed C13g)
+    for f in ("EOF", "EOFstd", "MCA", "CPCCA") + (("ComplexEOF", "SparsePCA", "CCA") if tier == "thorough" else ()):
+        for rot in (False, True):
+            for r in (ROUTES if tier == "thorough" else ["netcdf_attrs", ROUTES[0]]):
+                cases.append(dict(fam=f, ds="d1m", rot=rot, route=r, when="after_fit"))
     # a list input with more than ten elements (list positions become tree keys "0".."11")
     for r in ROUTES:
         cases.append(dict(fam="EOF", ds="d12", rot=False, route=r, when="after_fit"))
@@ -148,11 +154,29 @@ def big_list(seed):
     return DataSetSpec("d12", items, None, "time", 12)
 
 
+def masked(spec, name, sample):
+    """the data set with the first coordinate line of the last feature dimension entirely missing (every item) and,
+    if `sample`, the third sample entirely missing"""
+    from ..data import DataSetSpec
+
+    def one(o):
+        if isinstance(o, list):
+            return [one(x) for x in o]
+        if o is None:
+            return None
+        v = np.array(o.values, dtype=complex if np.iscomplexobj(o.values) else float, copy=True)
+        v[..., 0] = np.nan
+        if sample:
+            v[2] = np.nan
+        return o.copy(data=v)
+    return DataSetSpec(name, one(spec.X), one(spec.Y), spec.dim, spec.nitems)
+
+
 def answers(fam, obj, w, ds, is_rot):
     out = {}
     out["scores"] = fam.scores(obj)
     out["components"] = fam.components(obj)
-    other = "d2" if ds == "d1" else ds
+    other = "d2" if ds == "d1" else ("d2m" if ds == "d1m" else ds)
     if fam.caps["hasTransform"]:
         out["transform"] = fam.transform(obj, w.ds_mem[other])
     if fam.caps["hasInverse"] and not is_rot:
@@ -168,6 +192,9 @@ def eval_class(i, case):
     w = World(case["fam"], True, False, True, seed=common.seed())
     if case["ds"] == "d12":
         w.ds_mem["d12"] = big_list(common.seed())
+    if case["ds"] == "d1m":
+        w.ds_mem["d1m"] = masked(w.ds_mem["d1"], "d1m", True)
+        w.ds_mem["d2m"] = masked(w.ds_mem["d2"], "d2m", False)
     with warnings.catch_warnings():
         warnings.simplefilter("ignore")
         model = w.new_model()
